@@ -54,3 +54,27 @@ Example C06_example :
   squawk [2;8;0;0;1;8;9;10;8;14;0;15;4;1] = Ok (Some (id_spec [2;8;0;0;1;8;9;10;8;14;0;15;4;1]))
   /\ id_spec [2;8;0;0;1;8;9;10;8;14;0;15;4;1] = 5611%N.
 Proof. split; vm_compute; reflexivity. Qed.
+
+(** ---- through the whole pipeline: one reader step on an existing row, every option record (both update paths) ---- *)
+From SQ Require Import Base Table Update Id13 TableProofs TotalPipeline EndToEnd.
+Local Open Scope N_scope.
+
+(** an accepted DF5/DF21 line for an aircraft already in the table sets its squawk to the identity code of that frame *)
+Theorem C06_end_to_end : forall (o : opts) (now : Z) (s : state) (line : list N) (s' : state) (rf : bool) (df a : N) (r : row) (m : list N), step_line o now s line = Ok (s', rf, Applied df a) -> lookup (tbl s) a = Some r -> (0 < delete_after o)%Z -> get_message line = Ok (Some m) -> df = 5 \/ df = 21 -> exists r' : row, lookup (tbl s') a = Some r' /\ r_squawk r' = Some (id_spec m).
+Proof. exact squawk_end_to_end. Qed.
+Check C06_end_to_end : forall (o : opts) (now : Z) (s : state) (line : list N) (s' : state) (rf : bool) (df a : N) (r : row) (m : list N), step_line o now s line = Ok (s', rf, Applied df a) -> lookup (tbl s) a = Some r -> (0 < delete_after o)%Z -> get_message line = Ok (Some m) -> df = 5 \/ df = 21 -> exists r' : row, lookup (tbl s') a = Some r' /\ r_squawk r' = Some (id_spec m).
+Print Assumptions C06_end_to_end.
+
+(** an accepted line of any other downlink format leaves the squawk as it was *)
+Theorem C06_end_to_end_untouched : forall (o : opts) (now : Z) (s : state) (line : list N) (s' : state) (rf : bool) (df a : N) (r : row), step_line o now s line = Ok (s', rf, Applied df a) -> lookup (tbl s) a = Some r -> (0 < delete_after o)%Z -> df <> 5 -> df <> 21 -> exists r' : row, lookup (tbl s') a = Some r' /\ r_squawk r' = r_squawk r.
+Proof. exact squawk_untouched_end_to_end. Qed.
+Check C06_end_to_end_untouched : forall (o : opts) (now : Z) (s : state) (line : list N) (s' : state) (rf : bool) (df a : N) (r : row), step_line o now s line = Ok (s', rf, Applied df a) -> lookup (tbl s) a = Some r -> (0 < delete_after o)%Z -> df <> 5 -> df <> 21 -> exists r' : row, lookup (tbl s') a = Some r' /\ r_squawk r' = r_squawk r.
+Print Assumptions C06_end_to_end_untouched.
+
+(** non-vacuity: a concrete DF5 line goes through the theorem for both -U settings *)
+Theorem C06_end_to_end_witness : forall u : bool, exists (s' : state) (rf : bool) (r' : row), step_line (ex_opts u) 1000 (ex_state 8360486) ex_line5 = Ok (s', rf, Applied 5 8360486) /\ lookup (tbl s') 8360486 = Some r' /\ r_squawk r' = Some (id_spec ex_m5) /\ id_spec ex_m5 = 3615.
+Proof. exact witness_df5_squawk. Qed.
+Check C06_end_to_end_witness : forall u : bool, exists (s' : state) (rf : bool) (r' : row), step_line (ex_opts u) 1000 (ex_state 8360486) ex_line5 = Ok (s', rf, Applied 5 8360486) /\ lookup (tbl s') 8360486 = Some r' /\ r_squawk r' = Some (id_spec ex_m5) /\ id_spec ex_m5 = 3615.
+Print Assumptions C06_end_to_end_witness.
+
+
